@@ -2,15 +2,15 @@ SPECIFICATION CSpec
 CONSTANTS
   Series = {"s1", "s2"}
   TOff = 0
-  TimesRaw = {0, 1, 2, 9}
+  TimesRaw = {0, 1, 9}
   Vals = {1, 2}
   Types = {"f", "h"}
   Apps = {"a1"}
   R = 4
   W = 0
   OOOCap = 2
-  Acts = {"NewAppender", "Append", "Commit", "Rollback", "Compact", "Reopen", "EvictSel", "EvictStale"}
-  Apis = {"v1"}
+  Acts = {"NewAppender", "Append", "Commit", "Rollback", "Reopen"}
+  Apis = {"v1", "v2"}
   Rej = {FALSE}
   DelLo = {0}
   DelHi = {9}
@@ -18,8 +18,8 @@ CONSTANTS
   AllowKF = {}
   KFInitOpts = FALSE
   KFV1Hist = FALSE
-  MaxOps = 5
-  PreT = {0, 1}
+  MaxOps = 4
+  PreT = {}
   TSActs = {}
   Balanced = FALSE
   EmitMode = "class"
